@@ -15,7 +15,7 @@
    operation with all query methods; proof/C07_Skel.v ties every transcribed function body to the source). *)
 From Coq Require Import Sorting.Sorted.
 From PDV Require Import lib.Base lib.C07_Key gen.Gen_C07 model.C07_BTreeSpec model.C07_Region
-  proof.C07_Sorted proof.C07_Tree proof.C07_RegionProof proof.C07_Spec proof.C07_Skel.
+  proof.C07_Sorted proof.C07_Tree proof.C07_RegionProof proof.C07_Spec proof.C07_Spec2 proof.C07_Monitor proof.C07_BTree proof.C07_Skel.
 Local Open Scope Z_scope.
 
 (* number of indexed regions = number of cached regions = number of current regions; ids unique *)
@@ -73,6 +73,68 @@ Theorem C07_set_region_displaces : forall ops, Forall wf_op ops -> forall r, wf_
   sort_regions (filter (fun x => negb (r_id x =? r_id r) && overlaps x r) (spec_of ops)).
 Proof. exact set_region_displaces_pf. Qed.
 
+(* previous-region lookup: the region that contains k, then the region that ends where it starts *)
+Theorem C07_search_prev_is_linear_scan : forall ops, Forall wf_op ops ->
+  forall k, search_prev_region (state_of ops) k = spec_prev (spec_of ops) k.
+Proof. exact search_prev_is_linear_scan_pf. Qed.
+
+(* adjacent regions of an arbitrary region r: the region that ends at r's start key, and the next region in
+   key order after r's start key if it starts exactly at r's end key *)
+Theorem C07_adjacent_is_linear_scan : forall ops, Forall wf_op ops ->
+  forall r, adjacent (state_of ops) r = spec_adjacent (spec_of ops) r.
+Proof. exact adjacent_is_linear_scan_pf. Qed.
+
+(* random picks (RandLeaderRegion & co.): whatever rand returns, a non-nil pick is a current region with that
+   role on that store lying inside the key range ... *)
+Theorem C07_random_pick_sound : forall ops, Forall wf_op ops ->
+  forall f s ks ke draws x, random_one (fam_of (state_of ops) f s) ks ke draws = Some (Some x) ->
+  In x (filter (fun r => involved r ks ke) (spec_fam (spec_of ops) f s)).
+Proof. exact random_pick_sound_pf. Qed.
+
+Theorem C07_random_pick_many_sound : forall ops, Forall wf_op ops ->
+  forall f s ranges x, In x (snd (random_many (fam_of (state_of ops) f s) ranges)) ->
+  exists se, In se ranges /\ In x (filter (fun r => involved r (fst se) (snd se)) (spec_fam (spec_of ops) f s)).
+Proof. exact random_many_sound_pf. Qed.
+
+(* ... and every such region sits at an index of the interval the code samples from (positive probability) *)
+Theorem C07_random_pick_candidates_complete : forall ops, Forall wf_op ops ->
+  forall f s ks ke x, In x (filter (fun r => involved r ks ke) (spec_fam (spec_of ops) f s)) ->
+  let '(si, ei) := rand_interval (fam_of (state_of ops) f s) ks ke in
+  exists d, 0 <= d < ei - si /\ l0_get_at (si + d) (items (fam_of (state_of ops) f s)) = Some x.
+Proof. exact random_pick_complete_pf. Qed.
+
+(* the boolean property the check evaluates on implementation traces (ri_monitor_from: every observation equals
+   what the linear-scan specification expects) holds on every model trace of the domain; OAll / ORandN, whose model
+   observation is a set, are compared as sets by the correspondence check instead *)
+Theorem C07_monitor_silent_on_model : forall ops, Forall wf_op ops -> Forall plain_op ops ->
+  ri_monitor_from [] ops (ri_run ri_empty ops) = None.
+Proof. exact monitor_silent_pf. Qed.
+
+(* ---- pkg/btree, the part PD added (order statistics): stage 2, first part ----
+   `idx_of sizes` is the `indices` array of a node whose children have these sizes.  Each bookkeeping function is
+   the corresponding operation on the size list, and getAt on a node with correct indices is the k-th element of
+   the in-order walk.  (Split / steal / merge on whole nodes and GetWithIndex: differential check only.) *)
+Theorem C07_btree_indices_addAt : forall a s b d acc,
+  add_at (length a) d (idx_from acc (a ++ s :: b)) = idx_from acc (a ++ (s + d) :: b).
+Proof. exact add_at_spec. Qed.
+Theorem C07_btree_indices_insertAt : forall a b sz, insert_at (length a) sz (idx_of (a ++ b)) = idx_of (a ++ sz :: b).
+Proof. exact insert_at_spec. Qed.
+Theorem C07_btree_indices_push : forall ss sz, push sz (idx_of ss) = idx_of (ss ++ [sz]).
+Proof. exact push_spec. Qed.
+Theorem C07_btree_indices_split : forall a s b nxt,
+  split (length a) nxt (idx_of (a ++ s :: b)) = idx_of (a ++ (s - 1 - nxt) :: nxt :: b).
+Proof. exact split_spec. Qed.
+Theorem C07_btree_indices_merge : forall a s1 s2 b,
+  merge (length a) (idx_of (a ++ s1 :: s2 :: b)) = idx_of (a ++ (s1 + 1 + s2) :: b).
+Proof. exact merge_spec. Qed.
+Theorem C07_btree_indices_removeAt : forall a s b, remove_at (length a) (idx_of (a ++ s :: b)) = (s, idx_of (a ++ b)).
+Proof. exact remove_at_spec. Qed.
+Theorem C07_btree_indices_pop : forall a s, pop (idx_of (a ++ [s])) = (s, idx_of a).
+Proof. exact pop_spec. Qed.
+Theorem C07_btree_get_at : forall (A : Type) (n : @bnode A), wf n ->
+  forall k, 0 <= k -> get_at n k = nth_error (flatten n) (Z.to_nat k).
+Proof. exact @get_at_spec. Qed.
+
 (* non-vacuity: a history inside the domain with a split-like overlap, an in-place update, a swallowing put
    and a removal; the swallowing region is what remains *)
 Example C07_nonvacuous :
@@ -100,3 +162,12 @@ Print Assumptions C07_search_is_linear_scan.
 Print Assumptions C07_scan_range_is_linear_scan.
 Print Assumptions C07_overlaps_is_linear_scan.
 Print Assumptions C07_set_region_displaces.
+Print Assumptions C07_search_prev_is_linear_scan.
+Print Assumptions C07_adjacent_is_linear_scan.
+Print Assumptions C07_random_pick_sound.
+Print Assumptions C07_random_pick_many_sound.
+Print Assumptions C07_random_pick_candidates_complete.
+Print Assumptions C07_monitor_silent_on_model.
+Print Assumptions C07_btree_indices_split.
+Print Assumptions C07_btree_indices_merge.
+Print Assumptions C07_btree_get_at.
